@@ -74,6 +74,8 @@ pub fn run(sched: &Rc<Sched>, steps: &[Value], ctl: &mut dyn Control, rng: &mut 
         final_status: String::new(),
     };
     let n = sched.statuses().len();
+    // the watchdog (vsched::start_watchdog) only watches while a schedule is being executed
+    vsched::BUSY.store(true, std::sync::atomic::Ordering::Relaxed);
     // steps may be delta-encoded (only the keys that changed): accumulate the spec's state
     let mut cur = vrt::Map::new();
     for (k, s) in steps.iter().enumerate() {
@@ -159,5 +161,6 @@ pub fn run(sched: &Rc<Sched>, steps: &[Value], ctl: &mut dyn Control, rng: &mut 
     }
     o.final_status = format!("{:?}", sched.statuses());
     sched.abort_and_join();
+    vsched::BUSY.store(false, std::sync::atomic::Ordering::Relaxed);
     o
 }
